@@ -674,6 +674,10 @@ func run(c *vh.Ctx) error {
 	// ---- the node's own decode entry points: honest encodings and padded / re-headed variants ---------------------
 	h.entryPoints()
 
+	// ---- object histories of the hash/size caches; the encoder as a pure function of the value under concurrency ------
+	h.objectHistories()
+	h.concurrentByValue()
+
 	// ---- known-finding probes (fixed witnesses, independent of the seed) ------------------------------------------
 	h.probes()
 
@@ -853,6 +857,16 @@ func (h *H) replayBody(body []string) (bool, string) {
 					h.failed = true
 					h.msgs = append(h.msgs, why)
 				}
+			}
+		case len(f) == 5 && f[0] == "O" && f[1] == "WithSeal":
+			if w := sealHistory(unhx(f[3]), unhx(f[4]), f[2] == "true"); w != "" {
+				h.failed = true
+				h.msgs = append(h.msgs, w)
+			}
+		case len(f) >= 1 && f[0] == "B":
+			// scheduling is not replayable: re-run the concurrent stream a few times
+			for k := 0; k < 5 && !h.failed; k++ {
+				h.concurrentByValue()
 			}
 		case len(f) == 3 && f[0] == "P":
 			if w := entryOne(f[1], unhx(f[2])); w != "" {
